@@ -32,6 +32,9 @@ type c03Op struct {
 	// that was never in flight
 	Twice bool `json:"twice,omitempty"`
 	Bogus bool `json:"bogus,omitempty"`
+	// Accept (with Bogus): the PUBREC for the identifier that was never in flight ACCEPTS, and a PUBCOMP for the
+	// same identifier follows as an event of its own: no PUBREL may answer it, no slot may come back
+	Accept bool `json:"accept,omitempty"`
 	RM    int  `json:"rm,omitempty"`
 	// LowRM: keep a reconnect Receive Maximum below the number of unacknowledged packets
 	// (the region of known finding C03-reconnect-lower-rm); generated cases never set it
@@ -196,7 +199,7 @@ func (p *c03Prop) Gen(r *Rng, i int, tier string) interface{} {
 			if !online && p.id == "C02" && r.Chance(20) {
 				c.Ops = append(c.Ops, c03Op{Op: "restart"})
 			} else if online {
-				c.Ops = append(c.Ops, c03Op{Op: "ack", K: r.Intn(4), Err: c.V5 && r.Chance(10), Twice: r.Chance(12), Bogus: c.V5 && r.Chance(4)})
+				c.Ops = append(c.Ops, c03Op{Op: "ack", K: r.Intn(4), Err: c.V5 && r.Chance(10), Twice: r.Chance(12), Bogus: r.Chance(6), Accept: r.Chance(60)})
 			} else {
 				c.Ops = append(c.Ops, c03Op{Op: "send", QoS: 1 + r.Intn(2)})
 			}
@@ -595,12 +598,28 @@ func (p *c03Prop) Run(ci interface{}) interface{} {
 				obs.Err = fmt.Sprintf("step %d: routing barrier timed out", k)
 			}
 		case "ack":
-			if online && op.Bogus && c.V5 {
+			if online && op.Bogus && (c.V5 || op.Accept) {
 				id := 60000 + k
 				a := mkAck(ver, mqttp.PUBREC, uint16(id))
-				a.SetReason(mqttp.CodeUnspecifiedError)
-				st.Ev = fmt.Sprintf("(EAck true (APubrec %d true))", id)
+				if !op.Accept {
+					a.SetReason(mqttp.CodeUnspecifiedError)
+				}
+				st.Ev = fmt.Sprintf("(EAck %s (APubrec %d %s))", cBool(c.V5), id, cBool(!op.Accept))
 				_ = s.SendL(a)
+				if op.Accept {
+					if !writerBarrier() {
+						obs.Err = fmt.Sprintf("step %d: writer barrier timed out", k)
+						break
+					}
+					logFrom()
+					for _, r := range log[before:] {
+						st.Wire = append(st.Wire, r.w)
+					}
+					obs.Steps = append(obs.Steps, st)
+					before = len(log)
+					st = c03Step{Ev: fmt.Sprintf("(EAck %s (APubcomp %d))", cBool(c.V5), id), Wire: []c03Wire{}}
+					_ = s.SendL(mkAck(ver, mqttp.PUBCOMP, uint16(id)))
+				}
 				break
 			}
 			if !online || len(outstanding) == 0 {
